@@ -375,7 +375,7 @@ Fixpoint key_ok (t : ty) : bool :=
   match t with
   | TPrim (PFloat _) => false
   | TPrim _ | TUnit _ | TRaw _ => true
-  | TText XString | TText XAsciiString => true
+  | TText XString | TText XAsciiString | TText XStr => true      (* [str] only occurs behind a wrapper: Box<str>, Rc<str>, .. *)
   | TText _ => false
   | TSeq SVec t' | TSeq SBTreeSet t' => key_ok t'
   | TSeq _ _ => false
@@ -383,8 +383,9 @@ Fixpoint key_ok (t : ty) : bool :=
   | TProd k ts =>
       (forallb negb (prod_skips k (length ts))) && forallb (fun x => key_ok x) ts
   | TSum _ vs => forallb (fun x => key_ok x) vs
-  | TWrap WBox t' => key_ok t'
-  | TWrap _ _ => false
+  | TWrap (WBox | WRc | WArc | WCow) t' => key_ok t'     (* Ord and Hash delegate to the contents *)
+  | TWrap _ _ => false      (* Cell / RefCell: not Hash, Ord through a borrow; `&K`: serialize-only, and the
+                               placeholder of Rec.v (`&Vec<()>`) must not be a key type *)
   end.
 
 (** * Sorting and collecting, as the collections do it *)
